@@ -460,4 +460,68 @@ mod verif_c18_cid_binding {
             "C18.cid.retry.retry_scid_mismatch_rejected"
         );
     }
+
+    // ---- C16: the event that completes the binding wakes every task parked in `poll_ready` -------------------------
+    static mut VP_WOKEN: u32 = 0;
+    fn waker_wake_counted(w: Waker) {
+        unsafe { VP_WOKEN += 1 };
+        std::mem::forget(w);
+    }
+    fn waker_drop_ignored(_w: &mut Waker) {}
+
+    /// server, unusual order (ClientHello parameters first, then the SCID of the first Initial): a task that parked in
+    /// `poll_ready` in between is woken by the call that makes the parameters ready (no wake-up is lost), in both orders
+    /// of arrival the waiter list is empty afterwards.
+    fn server_waiter_woken_contract(params_first: bool) {
+        let wire_scid = any_cid();
+        unsafe {
+            ORACLE_ISCID = Some(wire_scid); // the matching case: the binding completes
+            ORACLE_ODCID = None;
+            ORACLE_RSCID = None;
+            VP_WOKEN = 0;
+        }
+        let mut p = server_start();
+        let first_ok = if params_first {
+            p.recv_remote_params(received_set::<Client>()).is_ok()
+        } else {
+            p.initial_scid_from_peer_need_equal(wire_scid).is_ok()
+        };
+        assert!(first_ok && !p.is_remote_params_ready(), "C16.param.binding.sup.not_ready_after_first_event");
+        // a task polls now and goes to sleep
+        let mut cx = Context::from_waker(Waker::noop());
+        let parked = p.poll_ready(&mut cx).is_pending();
+        assert!(parked && p.wakers.len() == 1, "C16.param.poll_ready.pending_registers_the_waiter");
+        let second_ok = if params_first {
+            p.initial_scid_from_peer_need_equal(wire_scid).is_ok()
+        } else {
+            p.recv_remote_params(received_set::<Client>()).is_ok()
+        };
+        assert!(second_ok && p.is_remote_params_ready(), "C16.param.binding.sup.ready_after_second_event");
+        assert!(unsafe { VP_WOKEN } == 1 && p.wakers.is_empty(), "C16.param.binding.completing_event_wakes_the_parked_task");
+        std::mem::forget(p);
+    }
+
+    #[kani::proof]
+    #[kani::unwind(22)]
+    #[kani::stub(std::hash::RandomState::new, fixed_random_state)]
+    #[kani::stub(crate::param::core::Parameters::get, crate::param::core::Parameters::oracle_get)]
+    #[kani::stub(crate::param::core::Parameters::is_empty, oracle_is_empty)]
+    #[kani::stub(crate::param::core::Parameters::contains, oracle_contains)]
+    #[kani::stub(std::task::Waker::wake, waker_wake_counted)]
+    #[kani::stub(<std::task::Waker as std::ops::Drop>::drop, waker_drop_ignored)]
+    fn server_waiter_woken_params_then_packet() {
+        server_waiter_woken_contract(true);
+    }
+
+    #[kani::proof]
+    #[kani::unwind(22)]
+    #[kani::stub(std::hash::RandomState::new, fixed_random_state)]
+    #[kani::stub(crate::param::core::Parameters::get, crate::param::core::Parameters::oracle_get)]
+    #[kani::stub(crate::param::core::Parameters::is_empty, oracle_is_empty)]
+    #[kani::stub(crate::param::core::Parameters::contains, oracle_contains)]
+    #[kani::stub(std::task::Waker::wake, waker_wake_counted)]
+    #[kani::stub(<std::task::Waker as std::ops::Drop>::drop, waker_drop_ignored)]
+    fn server_waiter_woken_packet_then_params() {
+        server_waiter_woken_contract(false);
+    }
 }
